@@ -378,7 +378,7 @@ func TestC20(t *testing.T) {
 	st.Note("exhaustive: every history of <= %d operations over %d operations (Set/Unset of ordinary, positional and special names, null values, assigning and non-assigning expansions, assigning evaluations); after every step Get of %d names and the complete Walk are compared with a plain map model", maxn, len(alpha), len(c20Names))
 
 	// (b) random longer histories
-	n := 20000
+	n := 300000
 	if thorough() {
 		n = 6000000
 	}
